@@ -358,6 +358,16 @@ def gen_cli(rng, thorough=False, scale=1):
         cov_per_hap=(3, 6) if big else (3, 9), read_len=(50, 220), multi_prob=rng.choice([0.0, 0.2, 0.4]),
         indel_prob=rng.choice([0.0, 0.0, 0.15]), hom_prob=rng.choice([0.1, 0.25]), uneven=True, samples=samples,
         gaps=rng.random() < 0.5)
+    if rng.random() < 0.4:
+        # a later chromosome on which nobody can be phased (no reads) but which has records at the SAME positions
+        # as an earlier, phased chromosome: per-chromosome state must not leak into it
+        import copy
+        first = list(sc.contigs)[0]
+        sc.contigs["chr9"] = sc.contigs[first]
+        sc.variants["chr9"] = copy.deepcopy(sc.variants[first])
+        for s_ in sc.samples:
+            kk = sc.ploidy[s_]
+            sc.haps[f"{s_}|chr9"] = c15_poly.random_haplotypes(rng, sc.variants["chr9"], kk, hom_prob=rng.choice([0.2, 0.7]))
     opts = {"ploidy": k, "B": rng.randrange(0, 6), "prephasing": False, "threads": rng.choice([1, 1, 2]),
             "haploid_sets": rng.random() < 0.2, "only_sample": None, "reference": rng.random() < 0.7}
     if two and rng.random() < 0.5:
